@@ -7,6 +7,13 @@
 // brand-new socket, or with an unknown connection ID. Observed: which accepted server connection
 // Read the payload, and every server connection's RemoteAddr(). Real sockets mean real time (no
 // synctest): waits are polls with short deadlines.
+//
+// How the listener LEARNS an ID is observed too: every datagram the server wrote during the
+// handshake is logged at the client's socket; the harness describes the first record of each
+// (ServerHello? fragment offset / fragment length / message length; the connection_id extension of
+// the reassembled message) for coq/theories/Rrc/C15Router.v [learned], and runs the listener's own
+// cidConnIdentifier over them. Variants with a server ID of 20 bytes (DTLS 1.3, default MTU) or an
+// MTU of 64 (DTLS 1.2) make the ServerHello leave in fragments.
 package dtls
 
 import (
@@ -20,8 +27,109 @@ import (
 	dtlsflight "github.com/pion/dtls/v3/internal/flight"
 	dtlsstate "github.com/pion/dtls/v3/internal/state"
 	"github.com/pion/dtls/v3/pkg/protocol"
+	"github.com/pion/dtls/v3/pkg/protocol/extension"
+	"github.com/pion/dtls/v3/pkg/protocol/handshake"
 	"github.com/pion/dtls/v3/pkg/protocol/recordlayer"
 )
+
+// the client's socket, logging what arrives (= what the server wrote)
+type c15lSock struct {
+	*net.UDPConn
+	mu  sync.Mutex
+	log [][]byte
+}
+
+func (s *c15lSock) ReadFrom(p []byte) (int, net.Addr, error) {
+	n, a, err := s.UDPConn.ReadFrom(p)
+	if err == nil {
+		s.mu.Lock()
+		s.log = append(s.log, append([]byte(nil), p[:n]...))
+		s.mu.Unlock()
+	}
+
+	return n, a, err
+}
+
+func (s *c15lSock) snapshot() [][]byte {
+	s.mu.Lock()
+	defer s.mu.Unlock()
+
+	return append([][]byte(nil), s.log...)
+}
+
+// first record of one datagram the server wrote, as Rrc/C15Router.v first_rec
+type c15lWrite struct {
+	SH   bool    `json:"sh"`   // unprotected handshake record whose message type is ServerHello
+	Off  int     `json:"off"`  // fragment offset
+	FLen int     `json:"flen"` // fragment length
+	TLen int     `json:"tlen"` // message length
+	CID  *string `json:"cid"`  // connection_id extension of the (reassembled) message, nil = none / not parseable
+}
+
+// describe the datagrams the server wrote; learned = what cidConnIdentifier yields over them in order
+func c15lWrites(dgs [][]byte) (ws []c15lWrite, learned *string, frag bool) {
+	type asm struct {
+		body []byte
+		have int
+	}
+	msgs := map[int]*asm{}
+	for _, d := range dgs {
+		for _, ri := range vParseDatagram(d, 0) {
+			if ri.CT != int(protocol.ContentTypeHandshake) || ri.Epoch != 0 || ri.HType != int(handshake.TypeServerHello) {
+				continue
+			}
+			m := msgs[ri.MsgSeq]
+			if m == nil {
+				m = &asm{body: make([]byte, ri.TLen)}
+				msgs[ri.MsgSeq] = m
+			}
+			frag = frag || ri.FLen != ri.TLen
+			body := ri.Raw[recordlayer.FixedHeaderSize+handshake.HeaderLength:]
+			if ri.FOff+ri.FLen <= len(m.body) && len(body) >= ri.FLen && m.have < len(m.body) {
+				copy(m.body[ri.FOff:], body[:ri.FLen])
+				m.have += ri.FLen
+			}
+		}
+	}
+	cidOf := func(mseq int) *string {
+		m := msgs[mseq]
+		if m == nil || m.have < len(m.body) {
+			return nil
+		}
+		var sh handshake.MessageServerHello
+		if sh.Unmarshal(m.body) != nil {
+			return nil
+		}
+		for _, e := range sh.Extensions {
+			if c, ok := e.(*extension.ConnectionID); ok {
+				h := vHex(c.CID)
+
+				return &h
+			}
+		}
+
+		return nil
+	}
+	ident := cidConnIdentifier()
+	for _, d := range dgs {
+		w := c15lWrite{}
+		if recs := vParseDatagram(d, 0); len(recs) > 0 {
+			ri := recs[0]
+			if ri.CT == int(protocol.ContentTypeHandshake) && ri.Epoch == 0 && ri.HType == int(handshake.TypeServerHello) {
+				w = c15lWrite{SH: true, Off: ri.FOff, FLen: ri.FLen, TLen: ri.TLen, CID: cidOf(ri.MsgSeq)}
+			}
+		}
+		ws = append(ws, w)
+		if learned == nil {
+			if id, ok := ident(d); ok {
+				h := vHex([]byte(id))
+				learned = &h
+			}
+		}
+	}
+
+	return ws, learned, frag
+}
 
 type c15lReader struct {
 	mu    sync.Mutex
@@ -76,7 +184,7 @@ func (r *c15lReader) count(p string) int {
 }
 
 type c15lSession struct {
-	sock   *net.UDPConn
+	sock   *c15lSock
 	client *Conn
 	server *Conn
 	rd     *c15lReader
@@ -105,6 +213,13 @@ type c15lCase struct {
 	Variant string   `json:"variant"`
 	CIDs    []string `json:"cids"`
 	Addrs   []string `json:"addrs"`
+	CIDLen  int      `json:"cid_len"` // length given to the server's ID generator
+	MTU     int      `json:"mtu"`     // server MTU (0 = default)
+	// per connection: the first records of the datagrams the server wrote during the handshake, the ID
+	// cidConnIdentifier learns from them (nil = none), whether its ServerHello left in fragments
+	Writes  [][]c15lWrite `json:"writes"`
+	Learned []*string     `json:"learned"`
+	SHFrag  []bool        `json:"sh_frag"`
 	Ops     []c15lOp `json:"ops"`
 	Dups    int      `json:"dups"` // payloads read more than once over all connections
 	Err     string   `json:"err,omitempty"`
@@ -124,16 +239,23 @@ func c15lRecord(c *Conn, payload string) ([]byte, error) {
 	return ds[0].raw, nil
 }
 
-func c15lRun(t *testing.T, rng *vRand, v13 bool, nClients, nOps int) c15lCase {
+func c15lRun(t *testing.T, rng *vRand, v13 bool, cidLen, mtu, nClients, nOps int) c15lCase {
 	t.Helper()
-	res := c15lCase{Kind: "listener", Variant: "dtls12"}
+	res := c15lCase{Kind: "listener", Variant: "dtls12", CIDLen: cidLen, MTU: mtu}
 	ccfgT, scfg := vCertPair()
 	ver := protocol.Version1_2
 	if v13 {
 		ver, res.Variant = protocol.Version1_3, "dtls13"
 	}
+	if cidLen != 8 {
+		res.Variant += fmt.Sprintf("-cid%d", cidLen)
+	}
+	if mtu > 0 {
+		res.Variant += fmt.Sprintf("-mtu%d", mtu)
+		scfg.MTU = mtu
+	}
 	scfg.MinVersion, scfg.MaxVersion = ver, ver
-	scfg.ConnectionIDGenerator = RandomCIDGenerator(8)
+	scfg.ConnectionIDGenerator = RandomCIDGenerator(cidLen)
 	ln, err := listenWithConfig("udp4", &net.UDPAddr{IP: net.IPv4(127, 0, 0, 1)}, scfg)
 	if err != nil {
 		t.Fatalf("listen: %v", err)
@@ -141,7 +263,7 @@ func c15lRun(t *testing.T, rng *vRand, v13 bool, nClients, nOps int) c15lCase {
 	ctx, cancel := context.WithTimeout(context.Background(), 20*time.Second)
 	defer cancel()
 	var ss []*c15lSession
-	var extra []*net.UDPConn
+	var extra []*c15lSock
 	defer func() {
 		for _, s := range ss {
 			_ = s.client.Close()
@@ -154,11 +276,16 @@ func c15lRun(t *testing.T, rng *vRand, v13 bool, nClients, nOps int) c15lCase {
 			_ = e.Close()
 		}
 	}()
-	for i := 0; i < nClients; i++ {
-		sock, err := net.ListenUDP("udp4", &net.UDPAddr{IP: net.IPv4(127, 0, 0, 1)})
+	newSock := func() *c15lSock {
+		u, err := net.ListenUDP("udp4", &net.UDPAddr{IP: net.IPv4(127, 0, 0, 1)})
 		if err != nil {
 			t.Fatalf("socket: %v", err)
 		}
+
+		return &c15lSock{UDPConn: u}
+	}
+	for i := 0; i < nClients; i++ {
+		sock := newSock()
 		ccfg := *ccfgT
 		ccfg.MinVersion, ccfg.MaxVersion = ver, ver
 		ccfg.ConnectionIDGenerator = RandomCIDGenerator(4)
@@ -197,11 +324,13 @@ func c15lRun(t *testing.T, rng *vRand, v13 bool, nClients, nOps int) c15lCase {
 		s.server = r.c
 		s.cid = append([]byte(nil), dtlsstate.CommonState(s.server.state).LocalConnectionID()...)
 		s.valid[s.addr] = true
-		if !dtlsstate.CommonState(s.server.state).RRCNegotiated || len(s.cid) != 8 {
+		if !dtlsstate.CommonState(s.server.state).RRCNegotiated || len(s.cid) != cidLen {
 			res.Err = "connection ID / RRC not negotiated"
 
 			return res
 		}
+		ws, learned, frag := c15lWrites(sock.snapshot())
+		res.Writes, res.Learned, res.SHFrag = append(res.Writes, ws), append(res.Learned, learned), append(res.SHFrag, frag)
 		go s.rd.run(s.server)
 		go (&c15lReader{}).run(s.client) // the client must consume what reaches its socket
 		res.CIDs = append(res.CIDs, vHex(s.cid))
@@ -248,7 +377,7 @@ func c15lRun(t *testing.T, rng *vRand, v13 bool, nClients, nOps int) c15lCase {
 		}
 		res.Ops = append(res.Ops, *op)
 	}
-	send := func(kind string, x, y int, sock *net.UDPConn, tamper bool, limit time.Duration) *c15lOp {
+	send := func(kind string, x, y int, sock *c15lSock, tamper bool, limit time.Duration) *c15lOp {
 		nPayload++
 		op := &c15lOp{Op: kind, X: x, Y: y, Src: sock.LocalAddr().String(), Payload: fmt.Sprintf("c15l-%s-%03d", res.Variant, nPayload)}
 		raw, err := c15lRecord(ss[x].client, op.Payload)
@@ -262,9 +391,9 @@ func c15lRun(t *testing.T, rng *vRand, v13 bool, nClients, nOps int) c15lCase {
 			off = 1
 		}
 		if tamper {
-			raw[off+rng.intn(8)] ^= byte(1 + rng.intn(255))
+			raw[off+rng.intn(cidLen)] ^= byte(1 + rng.intn(255))
 		}
-		op.CID = vHex(raw[off : off+8])
+		op.CID = vHex(raw[off : off+cidLen])
 		if _, err := sock.WriteTo(raw, ln.Addr()); err != nil {
 			res.Err = "send: " + err.Error()
 		}
@@ -277,16 +406,17 @@ func c15lRun(t *testing.T, rng *vRand, v13 bool, nClients, nOps int) c15lCase {
 	for i := 0; i < nOps && res.Err == ""; i++ {
 		x := rng.intn(nClients)
 		y := (x + 1 + rng.intn(nClients-1)) % nClients
-		switch c := rng.intn(10); {
+		c := rng.intn(10)
+		if i == 0 && (cidLen != 8 || mtu > 0) {
+			c = 6 // the length / MTU variants always contain a record from a brand-new address
+		}
+		switch {
 		case c < 2:
 			send("own", x, -1, ss[x].sock, false, okWait)
 		case c < 6:
 			send("fromother", x, y, ss[y].sock, false, okWait)
 		case c < 7:
-			sock, err := net.ListenUDP("udp4", &net.UDPAddr{IP: net.IPv4(127, 0, 0, 1)})
-			if err != nil {
-				t.Fatalf("socket: %v", err)
-			}
+			sock := newSock()
 			extra = append(extra, sock)
 			send("fresh", x, -1, sock, false, okWait)
 		case c < 8:
@@ -294,10 +424,7 @@ func c15lRun(t *testing.T, rng *vRand, v13 bool, nClients, nOps int) c15lCase {
 			send("unknown", x, y, src, true, noneWait)
 		default:
 			// full rebinding: fresh socket, read the challenge there, answer it from there
-			sock, err := net.ListenUDP("udp4", &net.UDPAddr{IP: net.IPv4(127, 0, 0, 1)})
-			if err != nil {
-				t.Fatalf("socket: %v", err)
-			}
+			sock := newSock()
 			extra = append(extra, sock)
 			op := send("rebind", x, -1, sock, false, okWait)
 			res.Ops = res.Ops[:len(res.Ops)-1]
@@ -374,7 +501,23 @@ func TestVerifC15Listener(t *testing.T) {
 	}
 	for i := 0; i < n; i++ {
 		for _, v13 := range []bool{false, true} {
-			out.emit(c15lRun(t, rng, v13, 2+rng.intn(2), 5+rng.intn(4)))
+			out.emit(c15lRun(t, rng, v13, 8, 0, 2+rng.intn(2), 5+rng.intn(4)))
+		}
+	}
+	// server ID lengths around the point where the DTLS 1.3 ServerHello no longer fits the default
+	// MTU, and a DTLS 1.2 server whose MTU fragments the ServerHello (plus the unfragmented controls)
+	m := 1
+	if vIsThorough() {
+		m = 4
+	}
+	for i := 0; i < m; i++ {
+		out.emit(c15lRun(t, rng, true, 16, 0, 2, 3+rng.intn(3)))
+		out.emit(c15lRun(t, rng, true, 20, 0, 2, 3+rng.intn(3)))
+		out.emit(c15lRun(t, rng, false, 8, 64, 2, 3+rng.intn(3)))
+		out.emit(c15lRun(t, rng, false, 20, 0, 2, 3+rng.intn(3)))
+		if vIsThorough() {
+			out.emit(c15lRun(t, rng, true, 32, 0, 2, 3+rng.intn(3)))
+			out.emit(c15lRun(t, rng, false, 4, 200, 2, 3+rng.intn(3)))
 		}
 	}
 }
